@@ -338,6 +338,56 @@ def rule_r6(repo):
     rr.require_floor(5)
     return rr
 
+def rule_r7(repo):
+    """Who-may-write: once a section parameter has been read, nothing on the decode side assigns to its value.  The decoder stores the
+    value it reads through the local name of the parameter it is decoding; an assignment to `<object>.<parameter name>.value` (a named
+    parameter of the message or of a section) anywhere in the code reachable from Decoder.process / generate_bufr_message rewrites
+    what was read - the full decode then reports another value than the metadata-only decode of the same bytes."""
+    import ast
+    from sa.model import CallGraph
+    rr = RuleResult('C17.R7', 'no code reachable from the decoder overwrites the value of a named section parameter after it was read')
+    cg = CallGraph(repo, 'Decoder')
+    entries = [repo.method('Decoder', 'process'), repo.func('decoder', 'generate_bufr_message')]
+    for nm in ('build_template', 'wire', 'subset'):
+        f = repo.method('BufrMessage', nm, required=False)
+        if f is not None:
+            entries.append(f)
+    reach = cg.reachable(entries)
+    n = 0
+    for fi in reach:
+        if fi.module.name in ('encoder',):
+            continue
+        n += 1
+        alias = {}
+        for node in ast.walk(fi.node):
+            if isinstance(node, ast.Assign) and len(node.targets) == 1 and isinstance(node.targets[0], ast.Name) and isinstance(node.value, ast.Attribute):
+                alias[node.targets[0].id] = node.value
+        for node in ast.walk(fi.node):
+            targets = []
+            if isinstance(node, ast.Assign):
+                targets = node.targets
+            elif isinstance(node, (ast.AugAssign, ast.AnnAssign)):
+                targets = [node.target]
+            elif isinstance(node, ast.Call) and isinstance(node.func, ast.Name) and node.func.id == 'setattr' and len(node.args) == 3 \
+                    and isinstance(node.args[1], ast.Constant) and node.args[1].value == 'value':
+                targets = [ast.Attribute(value=node.args[0], attr='value', ctx=ast.Store())]
+            for t in targets:
+                for tt in (t.elts if isinstance(t, (ast.Tuple, ast.List)) else [t]):
+                    if not (isinstance(tt, ast.Attribute) and tt.attr == 'value'):
+                        continue
+                    recv = tt.value
+                    if isinstance(recv, ast.Name) and recv.id in alias and recv.id != 'self':
+                        recv = alias[recv.id]
+                    if isinstance(recv, ast.Attribute):
+                        rr.fail('%s:%s.value' % (fi.qualname, norm(recv)), '%s:%d' % (fi.where.rsplit(':', 1)[0], node.lineno),
+                                '%s assigns to %s.value: a section parameter that has already been read is rewritten on the decode side, so a full decode reports '
+                                'another value for it than the metadata-only decode of the same bytes (and than the bytes themselves)' % (fi.qualname, norm(recv)))
+    rr.instance('%d functions reachable from Decoder.process, generate_bufr_message and the message methods the decoder uses' % n)
+    if n < 40:
+        raise AnalysisError('only %d functions reachable from the decoder entry points' % n)
+    rr.require_floor(1)
+    return rr
+
 
 def run(repo, check):
     check.run_rule(rule_r6, repo)
@@ -347,6 +397,7 @@ def run(repo, check):
         check.run_rule(rule_r2_full, repo)
     check.run_rule(rule_r3, repo)
     check.run_rule(rule_r4, repo)
+    check.run_rule(rule_r7, repo)
     from sa.rules import c11
     r5 = c11.rule_r1(repo)
     r5.rule = 'C17.R5'
